@@ -43,9 +43,15 @@ Definition ev_sx (e : ev) : sx :=
   | EPersist r => SL [SN 15; SN r; SN 0]
   end.
 
+(* a configuration / presented payload: (username passive (attribute codes ...)) *)
+Definition cfg_of (e : sx) : ccfg :=
+  mkCfg (sx_get_n (sx_nth e 0)) (sx_get_bool (sx_nth e 1)) (map sx_get_n (sx_get_l (sx_nth e 2))).
+Definition cfg_sx (c : ccfg) : sx := SL [SN (c_user c); sx_bool (c_passive c); SL (map SN (c_attrs c))].
+
+(* script events: (0 username passive (attrs)) auth | (1) disconnect | (2 sid cn ok static) hello | (3 sid) data *)
 Definition nev_of (e : sx) : nev :=
   let k := sx_get_n (sx_nth e 0) in
-  if (k =? 0)%N then NAuth
+  if (k =? 0)%N then NAuth (cfg_of (SL (tl (sx_get_l e))))
   else if (k =? 1)%N then NDisc
   else if (k =? 2)%N then NSeg (SHello (sx_get_n (sx_nth e 1)) (sx_get_n (sx_nth e 2))
                                       (sx_get_bool (sx_nth e 3)) (sx_get_n (sx_nth e 4)))
@@ -55,7 +61,7 @@ Definition nev_of (e : sx) : nev :=
 Definition state_of (cfg scr : sx) : st :=
   mkSt (pst_of (sx_get_n (sx_nth cfg 0))) [] None (sx_get_n (sx_nth cfg 1)) (sx_get_n (sx_nth cfg 2))
        (sx_get_n (sx_nth cfg 3)) NNext (map nev_of (sx_get_l scr)) [] (sx_get_n (sx_nth cfg 4)) []
-       (sx_get_bool (sx_nth cfg 5)) 0 [].
+       (sx_get_bool (sx_nth cfg 5)) 0 [] (mkCfg 0 false []) [].
 
 Definition summary (s : st) : sx :=
   SL [SN (pst_code (ps s));
@@ -68,7 +74,9 @@ Definition summary (s : st) : sx :=
       sx_bool (all_done s);
       sx_bool (stuck s);
       SL (map SN (filter (enabled s) (tids s)));
-      SN (stored s)].
+      SN (stored s);
+      (* payloads written towards the server: (connection, 1 client hello | 2 client finish, payload) *)
+      SL (map (fun e => SL [SN (fst (fst e)); SN (snd (fst e)); cfg_sx (snd e)]) (pres s))].
 
 (* ---- replay of an observed trace: list of (tid code arg) ---- *)
 Fixpoint pend_get (t : N) (p : list (N * list label)) : list label :=
